@@ -796,10 +796,7 @@ package rel
 //@   tags C10
 //@   fnparam * pure
 
-// no frame claimed: the function writes caller-visible state or the frame is beyond the thin contract (frame.G.wout)
-//@ func (Dict).Format(d; f, verb)
-//@   tags C10
-//@   fnparam * pure
+// (moved to verif_contracts_c12.go: (Dict).Format)
 // (covered elsewhere: (rel.Dict).OrderedEntries in verif_contracts_c19.go)
 
 //@ func (Dict).Eval(d; ctx, local)
@@ -1720,24 +1717,11 @@ package rel
 //@   requires t != nil
 //@   modifies HS|rel.Attr
 
-//@ func (*GenericTuple).Hash(t; seed)
-//@   tags C10
-//@   assigns fresh-only
-//@   fnparam * pure
-//@   requires t != nil
-//@   requires t != nil
+// (moved to verif_contracts_x06.go: (*GenericTuple).Hash)
 
-//@ func (*GenericTuple).Equal(t; v)
-//@   tags C10
-//@   fnparam * pure
-//@   requires t != nil
-//@   requires v != nil
-//@   requires t != nil
+// (moved to verif_contracts_x06.go: (*GenericTuple).Equal)
 
-// no frame claimed: the function writes caller-visible state or the frame is beyond the thin contract (frame.G.wout@r1)
-//@ func TupleNameRepr(name)
-//@   tags C10
-//@   fnparam * pure
+// (moved to verif_contracts_c12.go: TupleNameRepr)
 
 // no frame claimed: calls a repo function without contract (engine havocs all state; a frame proof would be vacuous)
 //@ func (*GenericTuple).String(t;)
@@ -1843,19 +1827,9 @@ package rel
 //@   assigns fresh-only
 //@   fnparam * pure
 
-//@ func (*GenericTuple).Count(t;)
-//@   tags C10
-//@   assigns fresh-only
-//@   fnparam * pure
-//@   requires t != nil
-//@   requires t != nil
+// (moved to verif_contracts_x06.go: (*GenericTuple).Count)
 
-//@ func (*GenericTuple).Get(t; name)
-//@   tags C10
-//@   assigns fresh-only
-//@   fnparam * pure
-//@   requires t != nil
-//@   requires t != nil
+// (moved to verif_contracts_x06.go: (*GenericTuple).Get)
 
 // (not under contract here: (*GenericTuple).MustGet — first pass: 1 of 3 obligations not proved (safe.panic×1))
 
